@@ -18,8 +18,11 @@
     a number produced by itertools.count are otherwise different objects), pluggy (the hook
     `prompt` calls Prompt.prompt, `with_.on_prompt` announces the prompt on entry and reports the
     command passed by gen.send on exit), ThreadPoolExecutor (runs the submitted call in one
-    thread).  An exception that unwinds through `with on_prompt` emits no end event here
-    (Prompt/System.v: emitted (Take t) (OAssert i) = []). *)
+    thread; `with` exit = shutdown(wait=True)), @contextmanager (a generator entered at `with`,
+    resumed at exit, an exception of the body thrown into it at its yield).
+    Exceptions propagate one frame per micro-step ([KRaising]): `finally` bodies run and the
+    exception goes on; `except` clauses catch by class; a generator context manager gets the
+    exception at its yield.  Cancellation does not exist in this code (threads, no asyncio). *)
 From NL Require Export Prompt.Model Prompt.System Prompt.Syntax Gen.PromptFuns.
 Open Scope Z_scope.
 
@@ -37,7 +40,11 @@ Inductive val :=
 | VSet                             (* context.open_prompts *)
 | VTuple (a b : val)
 | VFun (f : fname)
-| VEvent (e : mev).                (* an OnStartPrompt / OnEndPrompt event *)
+| VEvent (e : mev)                 (* an OnStartPrompt / OnEndPrompt event, as the main process reads it *)
+| VEndEv (t p : Z) (c : val)       (* the OnEndPrompt the child builds: with the command it carries *)
+| VQueueOut                        (* queue_out *)
+| VEmptyStr                        (* '' *)
+| VOpaque.                         (* a value the command path does not look at *)
 
 Inductive exc := XKeyError | XAssertion.
 
@@ -45,9 +52,11 @@ Inductive ievent :=
 | IGot (i : nat) (c : cmd)                 (* a get returned instance i *)
 | ISent (i : nat)                          (* put on queue_in: instance i *)
 | IPut (id : nat) (i : nat) (c : cmd)      (* put on the queue object id *)
-| IStartPrompt (p : Z)                     (* on_prompt entered: OnStartPrompt(prompt_no=p) *)
-| IEndPrompt (p : Z) (v : val)             (* on_prompt left: OnEndPrompt(prompt_no=p, command=v) *)
-| IHook (h : string).                      (* await ahook.h(context=context, event=event) *)
+| IStartPrompt (t p : Z)                   (* queue_out.put(OnStartPrompt(trace_no=t, prompt_no=p)) *)
+| IEndPrompt (t p : Z) (v : val)           (* queue_out.put(OnEndPrompt(trace_no=t, prompt_no=p, command=v)) *)
+| IHook (h : string)                       (* await ahook.h(context=context, event=event) *)
+| ISentinel                                (* queue_in.put(None) *)
+| ISubmit (f : fname) (args : list val).   (* executor.submit(f, args): a thread is started *)
 
 (** ================================================================== shared state *)
 Inductive dkind := DPlain | DDefault.
@@ -60,24 +69,34 @@ Record shared := mkSh {
   h_heap : nat -> list icmd;      (* the queue objects *)
   h_next : nat;                   (* next fresh object *)
   h_ctr : Z;                      (* the prompt counter *)
-  h_open : list (Z * Z)           (* context.open_prompts *)
+  h_open : list (Z * Z);          (* context.open_prompts *)
+  h_sentinel : bool;              (* a None has been put on queue_in (behind everything in h_in) *)
+  h_bound : bool;                 (* context.send_command is bound (RunSession.run has been entered) *)
+  h_relay_done : bool             (* the future of the relay thread is done *)
 }.
 
 Definition hset_in (sh : shared) (q : list icmd) (n : nat) : shared :=
-  mkSh q n (h_kind sh) (h_dict sh) (h_heap sh) (h_next sh) (h_ctr sh) (h_open sh).
+  mkSh q n (h_kind sh) (h_dict sh) (h_heap sh) (h_next sh) (h_ctr sh) (h_open sh) (h_sentinel sh) (h_bound sh) (h_relay_done sh).
 Definition hset_dict (sh : shared) (d : Z -> option nat) : shared :=
-  mkSh (h_in sh) (h_nsent sh) (h_kind sh) d (h_heap sh) (h_next sh) (h_ctr sh) (h_open sh).
+  mkSh (h_in sh) (h_nsent sh) (h_kind sh) d (h_heap sh) (h_next sh) (h_ctr sh) (h_open sh) (h_sentinel sh) (h_bound sh) (h_relay_done sh).
 Definition hset_kind (sh : shared) (k : dkind) : shared :=
-  mkSh (h_in sh) (h_nsent sh) k (fun _ => None) (h_heap sh) (h_next sh) (h_ctr sh) (h_open sh).
+  mkSh (h_in sh) (h_nsent sh) k (fun _ => None) (h_heap sh) (h_next sh) (h_ctr sh) (h_open sh) (h_sentinel sh) (h_bound sh) (h_relay_done sh).
 Definition hset_heap (sh : shared) (h : nat -> list icmd) : shared :=
-  mkSh (h_in sh) (h_nsent sh) (h_kind sh) (h_dict sh) h (h_next sh) (h_ctr sh) (h_open sh).
+  mkSh (h_in sh) (h_nsent sh) (h_kind sh) (h_dict sh) h (h_next sh) (h_ctr sh) (h_open sh) (h_sentinel sh) (h_bound sh) (h_relay_done sh).
 Definition alloc (sh : shared) : shared :=
   mkSh (h_in sh) (h_nsent sh) (h_kind sh) (h_dict sh)
-       (fun x => if Nat.eqb x (h_next sh) then [] else h_heap sh x) (S (h_next sh)) (h_ctr sh) (h_open sh).
+       (fun x => if Nat.eqb x (h_next sh) then [] else h_heap sh x) (S (h_next sh)) (h_ctr sh) (h_open sh)
+       (h_sentinel sh) (h_bound sh) (h_relay_done sh).
 Definition hset_ctr (sh : shared) (z : Z) : shared :=
-  mkSh (h_in sh) (h_nsent sh) (h_kind sh) (h_dict sh) (h_heap sh) (h_next sh) z (h_open sh).
+  mkSh (h_in sh) (h_nsent sh) (h_kind sh) (h_dict sh) (h_heap sh) (h_next sh) z (h_open sh) (h_sentinel sh) (h_bound sh) (h_relay_done sh).
 Definition hset_opens (sh : shared) (o : list (Z * Z)) : shared :=
-  mkSh (h_in sh) (h_nsent sh) (h_kind sh) (h_dict sh) (h_heap sh) (h_next sh) (h_ctr sh) o.
+  mkSh (h_in sh) (h_nsent sh) (h_kind sh) (h_dict sh) (h_heap sh) (h_next sh) (h_ctr sh) o (h_sentinel sh) (h_bound sh) (h_relay_done sh).
+Definition hset_sentinel (sh : shared) (b : bool) : shared :=
+  mkSh (h_in sh) (h_nsent sh) (h_kind sh) (h_dict sh) (h_heap sh) (h_next sh) (h_ctr sh) (h_open sh) b (h_bound sh) (h_relay_done sh).
+Definition hset_bound (sh : shared) (b : bool) : shared :=
+  mkSh (h_in sh) (h_nsent sh) (h_kind sh) (h_dict sh) (h_heap sh) (h_next sh) (h_ctr sh) (h_open sh) (h_sentinel sh) b (h_relay_done sh).
+Definition hset_relay_done (sh : shared) (b : bool) : shared :=
+  mkSh (h_in sh) (h_nsent sh) (h_kind sh) (h_dict sh) (h_heap sh) (h_next sh) (h_ctr sh) (h_open sh) (h_sentinel sh) (h_bound sh) b.
 
 Definition hupd (h : nat -> list icmd) (k : nat) (v : list icmd) : nat -> list icmd :=
   fun x => if Nat.eqb x k then v else h x.
@@ -96,7 +115,7 @@ Fixpoint bind (ps : list string) (vs : list val) (e : env) : option env :=
 
 (** ================================================================== expressions *)
 Definition truthy (v : val) : bool :=
-  match v with VNone => false | VBool b => b | VInt z => negb (Z.eqb z 0) | _ => true end.
+  match v with VNone => false | VBool b => b | VInt z => negb (Z.eqb z 0) | VEmptyStr => false | _ => true end.
 
 Fixpoint val_eqb (a b : val) : bool :=
   match a, b with
@@ -167,6 +186,20 @@ Fixpoint eval (tno : Z) (sh : shared) (en : env) (e : expr) {struct e} : eres :=
   | EAttr AQueueIn => EOk sh en VQueueIn []
   | EAttr AQueueMap => EOk sh en VMap []
   | EAttr AOpenPrompts => EOk sh en VSet []
+  | EAttr ASendCommand => EOk sh en (if h_bound sh then VFun FnSendCommand else VNone) []
+  | EAttr AQueueOut => EOk sh en VQueueOut []
+  | EEmptyStr => EOk sh en VEmptyStr []
+  | EOpaque _ => EOk sh en VOpaque []
+  | EOpaqueOf a => ebind (eval tno sh en a) (fun sh1 en1 v e1 => match v with VOpaque => EOk sh1 en1 VOpaque e1 | _ => EStuck end)
+  | EMkStartPrompt t p => bin t p (fun _ vt vp => match vt, vp with VInt zt, VInt zp => Some (VEvent (MStart zt zp)) | _, _ => None end)
+  | EMkEndPrompt t p c =>
+      ebind (eval tno sh en t) (fun sh1 en1 vt e1 =>
+      pre e1 (ebind (eval tno sh1 en1 p) (fun sh2 en2 vp e2 =>
+      pre e2 (ebind (eval tno sh2 en2 c) (fun sh3 en3 vc e3 =>
+      match vt, vp with
+      | VInt zt, VInt zp => EOk sh3 en3 (VEndEv zt zp vc) e3
+      | _, _ => EStuck
+      end)))))
   | EFun f => EOk sh en (VFun f) []
   | EField a f =>
       ebind (eval tno sh en a) (fun sh1 en1 v e1 =>
@@ -211,7 +244,7 @@ Fixpoint eval (tno : Z) (sh : shared) (en : env) (e : expr) {struct e} : eres :=
       match vq with
       | VQueueIn =>
           match h_in sh1 with
-          | [] => EBlock
+          | [] => if h_sentinel sh1 then EOk (hset_sentinel sh1 false) en1 VNone e1 else EBlock
           | (i, c) :: r => EOk (hset_in sh1 r (h_nsent sh1)) en1 (VCmd i c) (e1 ++ [IGot i c])
           end
       | VQueue id =>
@@ -254,35 +287,58 @@ Fixpoint has_get (e : expr) : bool :=
   | EQueueGet _ => true
   | EField a _ | EWalrus _ a | ENot a | EIsPdbCommand a => has_get a
   | ETuple a b | EGetItem a b | EDictGet a b | EEq a b | ENe a b | EIs a b | EIsNot a b | EIn a b | ENotIn a b => has_get a || has_get b
-  | EMkCmd a b c => has_get a || has_get b || has_get c
+  | EMkCmd a b c | EMkEndPrompt a b c => has_get a || has_get b || has_get c
+  | EMkStartPrompt a b => has_get a || has_get b
+  | EOpaqueOf a => has_get a
   | _ => false
   end.
 
 (** ================================================================== threads *)
+(** why the frames of a generator are on this thread's stack *)
+Inductive gdelim :=
+| DEnter (b : stmt)     (* started by `with gen(..): b`: at its first yield the body b runs *)
+| DSend                 (* resumed by gen.send(v): at its next yield the sender goes on *)
+| DExit                 (* resumed because the with body ended: must run to its end *)
+| DThrow.               (* an exception of the with body was thrown into it *)
+
 Inductive kitem :=
 | KS (s : stmt)                       (* a statement still to be executed *)
 | KLoop (c : expr) (b : stmt)         (* at the head of `while c: b` *)
 | KTry (h : handles) (hb : stmt)      (* inside the body of try ... except h: hb *)
 | KHandling (x : exc)                 (* inside a handler of x (a bare `raise` re-raises x) *)
+| KFin (f : stmt)                     (* inside the body of try ... finally: f *)
+| KRaising (x : exc)                  (* x is propagating through the frames below *)
 | KRet (dst : option string)          (* call frame: `return v` binds dst and goes on behind it *)
-| KWith (p : Z) (sent : option val).  (* inside `with on_prompt(prompt_no=p)`; what gen.send passed *)
+| KRecv (dst : option string)         (* head of a SUSPENDED generator: `[dst =] yield` waits for a value *)
+| KGenDelim (d : gdelim)              (* below the frames of a generator running on this thread *)
+| KWith (g : list kitem)              (* inside `with <generator>`: the suspended generator *)
+| KExecExit                           (* inside `with ThreadPoolExecutor(..)`: exit = shutdown(wait=True) *)
+| KWaitRelay.                         (* waiting for the relay thread's future *)
 Notation cont := (list kitem).
 
 Record thread := mkT { t_no : Z; t_env : env; t_k : cont }.
 
 Definition stmt_has_get (s : stmt) : bool :=
   match s with
-  | SAssign _ e | SExpr e | SAssert e | SReturn e | SIf e _ _ | SGenSend e | SWithOnPrompt e _ | SSetClear e => has_get e
+  | SAssign _ e | SExpr e | SAssert e | SReturn e | SIf e _ _ | SGenSend e | SSetClear e => has_get e
   | SPut a b | SDelItem a b | SPopItem a b | SSetAdd a b | SSetDiscard a b | SSetRemove a b => has_get a || has_get b
   | SSetItem a b c => has_get a || has_get b || has_get c
-  | SCall _ _ args => existsb has_get args
+  | SCall _ _ args | SWithGen _ args _ | SSubmit _ args => existsb has_get args
+  | SFutureResult => true
   | _ => false
   end.
 
+Fixpoint has_delim (k : cont) : bool :=
+  match k with [] => false | KGenDelim _ :: _ => true | _ :: r => has_delim r end.
+
+(** the thread stands before an operation that may block: a get, the wait for the future, or the
+    yield of a generator that IS the thread (a context manager entered by the framework) *)
 Definition at_get (k : cont) : bool :=
   match k with
+  | KS (SYield _) :: r => negb (has_delim r)
   | KS s :: _ => stmt_has_get s
   | KLoop c _ :: _ => has_get c
+  | KWaitRelay :: _ => true
   | _ => false
   end.
 
@@ -294,19 +350,12 @@ Definition catches (h : handles) (x : exc) : bool :=
   | _, _ => false
   end.
 
-Fixpoint unwind (x : exc) (k : cont) : option cont :=
-  match k with
-  | [] => None
-  | KTry h hb :: r => if catches h x then Some (KS hb :: KHandling x :: r) else unwind x r
-  | _ :: r => unwind x r
-  end.
-
 (** a bare `raise`: the exception being handled, and the stack outside its handler *)
 Fixpoint handled (k : cont) : option (exc * cont) :=
   match k with
   | [] => None
   | KHandling x :: r => Some (x, r)
-  | KRet _ :: _ => None
+  | KRet _ :: _ | KGenDelim _ :: _ | KWith _ :: _ | KFin _ :: _ | KExecExit :: _ => None
   | _ :: r => handled r
   end.
 
@@ -314,7 +363,7 @@ Fixpoint to_loop (k : cont) : option cont :=
   match k with
   | [] => None
   | KLoop c b :: r => Some (KLoop c b :: r)
-  | KRet _ :: _ | KWith _ _ :: _ => None
+  | KRet _ :: _ | KWith _ :: _ | KFin _ :: _ | KGenDelim _ :: _ | KExecExit :: _ => None
   | _ :: r => to_loop r
   end.
 
@@ -322,26 +371,43 @@ Fixpoint out_of_loop (k : cont) : option cont :=
   match k with
   | [] => None
   | KLoop _ _ :: r => Some r
-  | KRet _ :: _ | KWith _ _ :: _ => None
+  | KRet _ :: _ | KWith _ :: _ | KFin _ :: _ | KGenDelim _ :: _ | KExecExit :: _ => None
   | _ :: r => out_of_loop r
   end.
 
-(** `return`: Some (dst, rest) at the nearest call frame; None = the thread's outermost function *)
+(** `return`: the nearest call frame; RetTop = the thread's outermost function.  A return that
+    would leave a with / finally / generator is not in this fragment. *)
 Inductive retres := RetTo (dst : option string) (k : cont) | RetTop | RetStuck.
 Fixpoint to_frame (k : cont) : retres :=
   match k with
   | [] => RetTop
   | KRet dst :: r => RetTo dst r
-  | KWith _ _ :: _ => RetStuck             (* return out of the with block: not in this fragment *)
+  | KWith _ :: _ | KFin _ :: _ | KGenDelim _ :: _ | KExecExit :: _ => RetStuck
   | _ :: r => to_frame r
   end.
 
-Fixpoint gen_send (v : val) (k : cont) : option cont :=
+(** the frames of the running generator, why it runs, the rest of the thread *)
+Fixpoint split_delim (k : cont) : option (cont * gdelim * cont) :=
   match k with
   | [] => None
-  | KWith p None :: r => Some (KWith p (Some v) :: r)
-  | KWith _ (Some _) :: _ | KRet _ :: _ => None
-  | x :: r => match gen_send v r with Some r' => Some (x :: r') | None => None end
+  | KGenDelim d :: r => Some ([], d, r)
+  | x :: r => match split_delim r with Some (a, d, b) => Some (x :: a, d, b) | None => None end
+  end.
+
+(** the suspended generator of the nearest enclosing with (taken out / put back) *)
+Fixpoint take_with (k : cont) : option (cont * cont) :=
+  match k with
+  | [] => None
+  | KWith g :: r => Some (g, KWith [] :: r)
+  | KRet _ :: _ | KGenDelim _ :: _ => None
+  | x :: r => match take_with r with Some (g, r') => Some (g, x :: r') | None => None end
+  end.
+Fixpoint put_with (g : cont) (k : cont) : option cont :=
+  match k with
+  | [] => None
+  | KWith [] :: r => Some (KWith g :: r)
+  | KWith _ :: _ | KRet _ :: _ | KGenDelim _ :: _ => None
+  | x :: r => match put_with g r with Some r' => Some (x :: r') | None => None end
   end.
 
 Definition fun_def (f : fname) : list string * stmt :=
@@ -354,6 +420,12 @@ Definition fun_def (f : fname) : list string * stmt :=
   | FnImpSend => (imp_params, imp_body)
   end.
 
+Definition gen_def (g : gname) : list string * stmt :=
+  match g with
+  | GRelayCommands => ([], relay_commands_body)
+  | GOnPrompt => (on_prompt_params, on_prompt_body)
+  end.
+
 Inductive mres :=
 | MNext (sh : shared) (th : thread) (evs : list ievent)
 | MBlocked
@@ -361,11 +433,9 @@ Inductive mres :=
 | MDied (sh : shared) (x : exc) (evs : list ievent)
 | MStuck.
 
+(** raising: the exception starts to propagate through the frames (one frame per micro-step) *)
 Definition do_raise (sh : shared) (tno : Z) (en : env) (k : cont) (x : exc) (evs : list ievent) : mres :=
-  match unwind x k with
-  | Some k' => MNext sh (mkT tno en k') evs
-  | None => MDied sh x evs
-  end.
+  MNext sh (mkT tno en (KRaising x :: k)) evs.
 
 Definition after (tno : Z) (k : cont) (r : eres) (f : shared -> env -> val -> list ievent -> mres) : mres :=
   match r with
@@ -390,8 +460,34 @@ Definition mstep (sh : shared) (th : thread) : mres :=
         if truthy v then go sh1 en1 (KS b :: KLoop c b :: k) e1 else go sh1 en1 k e1)
   | KTry _ _ :: k => go sh en k []
   | KHandling _ :: k => go sh en k []
+  | KFin f :: k => go sh en (KS f :: k) []                       (* the body ended normally *)
   | KRet dst :: k => go sh (bind_dst dst en VNone) k []
-  | KWith p sent :: k => go sh en k [IEndPrompt p (match sent with Some v => v | None => VNone end)]
+  | KRecv _ :: _ => MStuck                                       (* a suspended generator does not run by itself *)
+  | KWith g :: k =>                                              (* the with body ended normally: the generator is resumed *)
+      match g with
+      | KRecv dst :: g' => go sh (bind_dst dst en VNone) (g' ++ KGenDelim DExit :: k) []
+      | _ => MStuck
+      end
+  | KGenDelim d :: k =>                                          (* the generator ran to its end *)
+      match d with
+      | DExit | DThrow => go sh en k []                          (* DThrow: it swallowed the exception *)
+      | DEnter _ | DSend => MStuck                               (* "generator didn't yield" *)
+      end
+  | KExecExit :: k => go sh en (KWaitRelay :: k) []
+  | KWaitRelay :: k => if h_relay_done sh then go sh en k [] else MBlocked
+  | KRaising x :: k =>
+      match k with
+      | [] => MDied sh x []
+      | KTry h hb :: r => if catches h x then go sh en (KS hb :: KHandling x :: r) [] else go sh en (KRaising x :: r) []
+      | KFin f :: r => go sh en (KS f :: KRaising x :: r) []     (* finally: f, then the exception goes on *)
+      | KWith g :: r =>                                          (* thrown into the generator at its yield *)
+          match g with
+          | KRecv _ :: g' => go sh en (KRaising x :: g' ++ KGenDelim DThrow :: r) []
+          | _ => MStuck
+          end
+      | KExecExit :: r => go sh en (KWaitRelay :: KRaising x :: r) []
+      | _ :: r => go sh en (KRaising x :: r) []
+      end
   | KS s :: k =>
     match s with
     | SSkip => go sh en k []
@@ -401,7 +497,12 @@ Definition mstep (sh : shared) (th : thread) : mres :=
     | SCall dst f args =>
         match eval_list tno sh en args with
         | Some (sh1, en1, vs, e1) =>
-            match (match f with CFn g => Some g | CVar x => match en1 x with Some (VFun g) => Some g | _ => None end end) with
+            match (match f with
+                   | CFn g => Some g
+                   | CVar x => match en1 x with Some (VFun g) => Some g | _ => None end
+                   | CAttr ASendCommand => if h_bound sh1 then Some FnSendCommand else None
+                   | CAttr _ => None
+                   end) with
             | Some g =>
                 match bind (fst (fun_def g)) vs en1 with
                 | Some en2 => go sh1 en2 (KS (snd (fun_def g)) :: KRet dst :: k) e1
@@ -442,9 +543,14 @@ Definition mstep (sh : shared) (th : thread) : mres :=
         after tno k (eval tno sh1 en1 v) (fun sh2 en2 vv e2 =>
         match vq, vv with
         | VQueueIn, VCmd _ c =>
-            go (hset_in sh2 (h_in sh2 ++ [(h_nsent sh2, c)]) (S (h_nsent sh2))) en2 k (e1 ++ e2 ++ [ISent (h_nsent sh2)])
+            if h_sentinel sh2 then MStuck        (* a command behind the sentinel: nobody reads it; not in this fragment *)
+            else go (hset_in sh2 (h_in sh2 ++ [(h_nsent sh2, c)]) (S (h_nsent sh2))) en2 k (e1 ++ e2 ++ [ISent (h_nsent sh2)])
+        | VQueueIn, VNone =>
+            if h_sentinel sh2 then MStuck else go (hset_sentinel sh2 true) en2 k (e1 ++ e2 ++ [ISentinel])
         | VQueue id, VCmd i c =>
             go (hset_heap sh2 (hupd (h_heap sh2) id (h_heap sh2 id ++ [(i, c)]))) en2 k (e1 ++ e2 ++ [IPut id i c])
+        | VQueueOut, VEvent (MStart t p) => go sh2 en2 k (e1 ++ e2 ++ [IStartPrompt t p])
+        | VQueueOut, VEndEv t p c => go sh2 en2 k (e1 ++ e2 ++ [IEndPrompt t p c])
         | _, _ => MStuck
         end))
     | SAssert e =>
@@ -464,15 +570,36 @@ Definition mstep (sh : shared) (th : thread) : mres :=
         end)
     | SRaise => match handled k with Some (x, k') => do_raise sh tno en k' x [] | None => MStuck end
     | STry b h hb => go sh en (KS b :: KTry h hb :: k) []
-    | SWithOnPrompt pe b =>
-        after tno k (eval tno sh en pe) (fun sh1 en1 v e1 =>
-        match v with
-        | VInt p => go sh1 en1 (KS b :: KWith p None :: k) (e1 ++ [IStartPrompt p])
-        | _ => MStuck
-        end)
+    | STryFinally b f => go sh en (KS b :: KFin f :: k) []
+    | SWithGen g args b =>
+        match eval_list tno sh en args with
+        | Some (sh1, en1, vs, e1) =>
+            match bind (fst (gen_def g)) vs en1 with
+            | Some en2 => go sh1 en2 (KS (snd (gen_def g)) :: KGenDelim (DEnter b) :: k) e1
+            | None => MStuck
+            end
+        | None => MStuck
+        end
+    | SYield dst =>
+        match split_delim k with
+        | Some (g, DEnter b, r) => go sh en (KS b :: KWith (KRecv dst :: g) :: r) []
+        | Some (g, DSend, r) => match put_with (KRecv dst :: g) r with Some r' => go sh en r' [] | None => MStuck end
+        | Some (_, DExit, _) | Some (_, DThrow, _) => MStuck       (* "generator didn't stop" *)
+        | None => MBlocked                                         (* the generator IS the thread: resumed by the framework *)
+        end
     | SGenSend e =>
         after tno k (eval tno sh en e) (fun sh1 en1 v e1 =>
-        match gen_send v k with Some k' => go sh1 en1 k' e1 | None => MStuck end)
+        match take_with k with
+        | Some (KRecv dst :: g, k') => go sh1 (bind_dst dst en1 v) (g ++ KGenDelim DSend :: k') e1
+        | _ => MStuck
+        end)
+    | SWithExecutor b => go sh en (KS b :: KExecExit :: k) []
+    | SSubmit f args =>
+        match eval_list tno sh en args with
+        | Some (sh1, en1, vs, e1) => go sh1 en1 k (e1 ++ [ISubmit f vs])
+        | None => MStuck
+        end
+    | SFutureResult => if h_relay_done sh then go sh en k [] else MBlocked
     | SSetAdd s e =>
         after tno k (eval tno sh en s) (fun sh1 en1 vs e1 =>
         after tno k (eval tno sh1 en1 e) (fun sh2 en2 ve e2 =>
@@ -500,8 +627,8 @@ Definition mstep (sh : shared) (th : thread) : mres :=
         after tno k (eval tno sh en s) (fun sh1 en1 vs e1 =>
         match vs with VSet => go (hset_opens sh1 []) en1 k e1 | _ => MStuck end)
     | SAwaitHook h => go sh en k [IHook h]
-    | SNewQueueIn => go (hset_in sh [] (h_nsent sh)) en k []
-    | SBindSendCommand => go sh en k []
+    | SNewQueueIn => go (hset_sentinel (hset_in sh [] (h_nsent sh)) false) en k []
+    | SBindSendCommand => go (hset_bound sh true) en k []
     | SSpawn => go sh en k []
     end
   end.
@@ -510,8 +637,8 @@ Definition mstep (sh : shared) (th : thread) : mres :=
 Definition returned (th : thread) : val := match t_env th "<returned>"%string with Some v => v | None => VNone end.
 
 Inductive rres :=
-| RAtGet (sh : shared) (th : thread) (evs : list ievent)    (* the thread stands before its next get *)
-| RBlocked                                                  (* the get it stood at found the queue empty: nothing happened *)
+| RAtGet (sh : shared) (th : thread) (evs : list ievent)    (* the thread stands before its next blocking operation *)
+| RBlocked                                                  (* the operation it stood at cannot complete: nothing happened *)
 | RDone (sh : shared) (v : val) (evs : list ievent)         (* its outermost function returned v *)
 | RDied (sh : shared) (x : exc) (evs : list ievent)         (* an exception left its outermost function *)
 | RStuck.
@@ -539,11 +666,20 @@ Definition resume (fuel : nat) (sh : shared) (th : thread) : rres :=
   | MStuck => RStuck
   end.
 
-Definition FUEL : nat := 60%nat.
+Definition FUEL : nat := 120%nat.
 
 (** a fresh thread that calls a function *)
 Definition call (tno : Z) (ps : list string) (body : stmt) (args : list val) : option thread :=
   match bind ps args empty with
   | Some en => Some (mkT tno en [KS body])
   | None => None
+  end.
+
+(** a thread that is a generator, standing at its yield, is resumed by whoever entered it:
+    normally (the protected body ended) or with an exception (the protected body raised) *)
+Definition after_yield (th : thread) (x : option exc) : option thread :=
+  match t_k th with
+  | KS (SYield dst) :: k =>
+      Some (mkT (t_no th) (bind_dst dst (t_env th) VNone) (match x with Some e => KRaising e :: k | None => k end))
+  | _ => None
   end.
